@@ -17,6 +17,7 @@ package criteria_concealment
 //@ func (*CriteriaConcealment).generateNewCriterionBase
 //@   property C18
 //@   requires model.distinctCriteria(originalParams.Criteria) && len(originalParams.Criteria) > 0
+//@   requires model.validParams(*listener, originalParams.MethodParameters) && model.coversAll(*listener, originalParams.MethodParameters, originalParams.Criteria)
 //@   ensures [gain] result.newCriterion != nil && result.newCriterion.Type == model.Gain && result.newCriterion.ValuesRange != nil
 //@   ensures [reference_is_existing] result.referenceCriterion != nil && exists j int :: 0 <= j && j < len(originalParams.Criteria) && *result.referenceCriterion == originalParams.Criteria[j]
 //@   ensures [range] result.referenceCriterion.ValuesRange != nil ==>
@@ -58,7 +59,7 @@ package criteria_concealment
 //@   ensures [values_preserved] len(result0.ConsideredAlternatives) == len(resParams.ConsideredAlternatives) && len(result0.NotConsideredAlternatives) == len(resParams.NotConsideredAlternatives)
 //@             && (forall i int :: 0 <= i && i < len(resParams.ConsideredAlternatives) ==> model.extendedBy(result0.ConsideredAlternatives[i], resParams.ConsideredAlternatives[i], result0.Criteria[len(resParams.Criteria)].Id))
 //@             && (forall i int :: 0 <= i && i < len(resParams.NotConsideredAlternatives) ==> model.extendedBy(result0.NotConsideredAlternatives[i], resParams.NotConsideredAlternatives[i], result0.Criteria[len(resParams.Criteria)].Id))
-//@   ensures [parameters_extended] model.coversAll(*listener, result0.MethodParameters, result0.Criteria)
+//@   ensures [parameters_extended] model.coversAll(*listener, result0.MethodParameters, result0.Criteria) && model.validParams(*listener, result0.MethodParameters)
 //@   ensures [report] len(result1) == 1 && result1[0].Id == result0.Criteria[len(resParams.Criteria)].Id && result1[0].Type == model.Gain
 
 //@ func (*CriteriaConcealment).Apply
@@ -73,6 +74,6 @@ package criteria_concealment
 //@   ensures [values_preserved] len(result.DMP.ConsideredAlternatives) == len(current.ConsideredAlternatives) && len(result.DMP.NotConsideredAlternatives) == len(current.NotConsideredAlternatives)
 //@             && (forall i int :: 0 <= i && i < len(current.ConsideredAlternatives) ==> model.extendedBy(result.DMP.ConsideredAlternatives[i], current.ConsideredAlternatives[i], result.DMP.Criteria[len(current.Criteria)].Id))
 //@             && (forall i int :: 0 <= i && i < len(current.NotConsideredAlternatives) ==> model.extendedBy(result.DMP.NotConsideredAlternatives[i], current.NotConsideredAlternatives[i], result.DMP.Criteria[len(current.Criteria)].Id))
-//@   ensures [parameters_extended] model.coversAll(*listener, result.DMP.MethodParameters, result.DMP.Criteria)
+//@   ensures [parameters_extended] model.coversAll(*listener, result.DMP.MethodParameters, result.DMP.Criteria) && model.validParams(*listener, result.DMP.MethodParameters)
 //@   ensures [report] typeis(result.Props, CriteriaConcealmentResult) && len(result.Props.(CriteriaConcealmentResult).AddedCriteria) == 1
 //@             && result.Props.(CriteriaConcealmentResult).AddedCriteria[0].Id == result.DMP.Criteria[len(current.Criteria)].Id
